@@ -36,13 +36,13 @@ SPECS["C07"] = {
                    "written in the harness; the tree-level half (text is the last root child, text sub-formats are only consulted after "
                    "text matched, the walk reports text iff its detector accepted) is decided on the real tree with symbolic detector verdicts.",
     "units": [
-        {"name": "text", "pkg": "magic", "harnesses": ["HC07Text"], "quick_args": fix(maxlen=160), "thorough_args": fix(maxlen=400),
+        {"name": "text", "pkg": "magic", "harnesses": ["HC07Text"], "quick_args": fix(maxlen=100), "thorough_args": fix(maxlen=160),
          "quick_shards": 16, "thorough_shards": 32},
         {"name": "sequence", "pkg": "mimetype", "harnesses": ["HC05Seq"], "quick_args": fix(maxlen=2), "thorough_args": fix(maxlen=3), "quick_shards": 32, "thorough_shards": 64},
         {"name": "entry", "pkg": "mimetype", "harnesses": ["HC05Reader"], "quick_args": fix(maxlen=3), "thorough_args": fix(maxlen=4), "quick_shards": 16, "thorough_shards": 32},
     ],
     "must_reach": ["assert:detect-slices-to-limit", "assert:second-detection-header-within-limit", "end", "assert:text-iff-bom-or-no-binary-byte"],
-    "bounds": {"quick": {"header_length": "0..160, all byte values, all uint32 limits"}, "thorough": {"header_length": "0..400"}},
+    "bounds": {"quick": {"header_length": "0..100, all byte values, all uint32 limits"}, "thorough": {"header_length": "0..160"}},
     "outside": ["headers longer than the bound (Text is a single loop over the header; no length-dependent state)"],
     "assumptions": ["only the first `limit` bytes reach the tree walk (checked by C04/C05 harnesses)"],
 }
@@ -51,13 +51,13 @@ SPECS["C11"] = {
     "explanation": "charset.FromPlain on every byte string without binary-data bytes, against an independent RFC 3629 DFA (validCut), "
                    "the BOM table and the C1-range rule, all executed symbolically together with the real utf8.Valid.",
     "units": [
-        {"name": "plain", "pkg": "charset", "harnesses": ["HC11Plain"], "quick_args": fix(maxlen=6), "thorough_args": fix(maxlen=7),
+        {"name": "plain", "pkg": "charset", "harnesses": ["HC11Plain"], "quick_args": fix(maxlen=5), "thorough_args": fix(maxlen=6),
          "quick_shards": 48, "thorough_shards": 64},
-        {"name": "sequence", "pkg": "charset", "harnesses": ["HC11Seq"], "quick_args": fix(maxlen=2), "thorough_args": fix(maxlen=3),
+        {"name": "sequence", "pkg": "charset", "harnesses": ["HC11Seq"], "quick_args": fix(maxlen=2), "thorough_args": fix(maxlen=2),
          "quick_shards": 32, "thorough_shards": 64},
     ],
     "must_reach": ["assert:seq-utf8-always-when-valid", "assert:seq-repeat-same-answer", "end", "assert:utf8-only-if-valid", "assert:utf8-always-when-valid", "assert:cp1252-needs-c1-byte", "assert:latin1-excludes-c1-byte"],
-    "bounds": {"quick": {"length": "1..6, all byte values except binary-data bytes; pairs of consecutive texts of 1..2 bytes each"}, "thorough": {"length": "1..7; pairs of 1..3 bytes"}},
+    "bounds": {"quick": {"length": "1..5, all byte values except binary-data bytes; pairs of consecutive texts of 1..2 bytes each"}, "thorough": {"length": "1..6; pairs of 1..2 bytes"}},
     "outside": ["strings longer than the bound", "charset sniffing applied to the three text leaves is the tree-level claim shared with C02"],
     "assumptions": [],
 }
@@ -67,17 +67,17 @@ SPECS["C09"] = {
                    "against an independent three-valued reference recogniser for the relaxed grammar (RFC 8259 structure plus the three "
                    "documented lexical leniencies) executed symbolically in the same run.",
     "units": [
-        {"name": "whole", "pkg": "magic", "harnesses": ["HC09Whole"], "quick_args": fix(maxlen=8), "thorough_args": fix(maxlen=10),
+        {"name": "whole", "pkg": "magic", "harnesses": ["HC09Whole"], "quick_args": fix(maxlen=6), "thorough_args": fix(maxlen=7),
          "quick_shards": 32, "thorough_shards": 64},
-        {"name": "prefix", "pkg": "magic", "harnesses": ["HC09Prefix"], "quick_args": fix(maxlen=8), "thorough_args": fix(maxlen=10),
+        {"name": "prefix", "pkg": "magic", "harnesses": ["HC09Prefix"], "quick_args": fix(maxlen=6), "thorough_args": fix(maxlen=7),
          "quick_shards": 32, "thorough_shards": 64},
-        {"name": "sub", "pkg": "magic", "harnesses": ["HC09Sub"], "quick_args": fix(maxlen=6), "thorough_args": fix(maxlen=8),
+        {"name": "sub", "pkg": "magic", "harnesses": ["HC09Sub"], "quick_args": fix(maxlen=5), "thorough_args": fix(maxlen=6),
          "quick_shards": 16, "thorough_shards": 64},
         {"name": "alpha", "pkg": "magic", "harnesses": ["HC09Alpha"], "quick_args": fix(maxlen=8), "thorough_args": fix(maxlen=10), "quick_shards": 48, "thorough_shards": 64},
-        {"name": "chain", "pkg": "json", "harnesses": ["HC16Chain"], "quick_args": fix(maxlen=3), "thorough_args": fix(maxlen=5), "quick_shards": 32, "thorough_shards": 64},
+        {"name": "chain", "pkg": "json", "harnesses": ["HC16Chain"], "quick_args": fix(maxlen=3), "thorough_args": fix(maxlen=3), "quick_shards": 32, "thorough_shards": 64},
     ],
     "must_reach": ["assert:chain-beyond-cap-not-parsed-completely", "assert:alpha-whole-json-implies-wellformed", "assert:alpha-prefix-json-implies-viable-prefix", "end", "assert:whole-json-implies-wellformed", "assert:prefix-json-implies-viable-prefix"],
-    "bounds": {"quick": {"length": "<= 8 (sub-types <= 6), all 256 byte values, limits 0 / len+1 / len; <= 8 over the structural alphabet; chains of <= 12 concrete openers + <= 3 symbolic bytes through Parse with cap 1..2"}, "thorough": {"length": "<= 10 (sub-types <= 8); alphabet <= 10"}},
+    "bounds": {"quick": {"length": "<= 6 (sub-types <= 5), all 256 byte values, limits 0 / len+1 / len; <= 8 over the structural alphabet; chains of <= 12 concrete openers + <= 3 symbolic bytes through Parse with cap 1..2"}, "thorough": {"length": "<= 7 (sub-types <= 6); alphabet <= 10"}},
     "outside": ["documents longer than the bound", "nesting deeper than the bound allows"],
     "assumptions": [],
 }
@@ -86,13 +86,13 @@ SPECS["C08"] = {
     "explanation": "every strict RFC 8259 object/array (reference recogniser in the harness, executed symbolically as the assumption) must be "
                    "accepted by magic.JSON examined in full (limits 0, len+1, MaxUint32) and at every cut after the opening bracket (limit = cut).",
     "units": [
-        {"name": "strict", "pkg": "magic", "harnesses": ["HC08"], "quick_args": fix(maxlen=8), "thorough_args": fix(maxlen=10),
+        {"name": "strict", "pkg": "magic", "harnesses": ["HC08"], "quick_args": fix(maxlen=8), "thorough_args": fix(maxlen=9),
          "quick_shards": 32, "thorough_shards": 64},
         {"name": "depth", "pkg": "json", "harnesses": ["HC08Depth"], "quick_shards": 8, "thorough_shards": 8},
         {"name": "entry", "pkg": "mimetype", "harnesses": ["HC05Reader"], "quick_args": fix(maxlen=3), "thorough_args": fix(maxlen=4), "quick_shards": 16, "thorough_shards": 32},
     ],
     "must_reach": ["assert:within-cap-is-parsed", "end", "assert:cut", "assert:whole-limit0"],
-    "bounds": {"quick": {"length": "2..8, all byte values (string contents restricted to printable ASCII)"}, "thorough": {"length": "2..10"}},
+    "bounds": {"quick": {"length": "2..8, all byte values (string contents restricted to printable ASCII)"}, "thorough": {"length": "2..9"}},
     "outside": ["documents longer than the bound", "string contents outside printable ASCII", "the 4096 nesting cap (C16)"],
     "assumptions": ["tree position of json under text/plain is covered by the tree-walk harnesses (C03)"],
 }
@@ -103,15 +103,15 @@ SPECS["C16"] = {
                    "and accepted documents nest at most k+1 deep; the pool constructor installs 4096 and Parse never changes it.",
     "units": [
         {"name": "guard", "pkg": "json", "harnesses": ["HC16Guard"], "quick_args": fix(maxlen=4), "thorough_args": fix(maxlen=5), "quick_shards": 16, "thorough_shards": 32},
-        {"name": "depth", "pkg": "json", "harnesses": ["HC16Depth"], "quick_args": fix(maxlen=9), "thorough_args": fix(maxlen=11), "quick_shards": 16, "thorough_shards": 48},
+        {"name": "depth", "pkg": "json", "harnesses": ["HC16Depth"], "quick_args": fix(maxlen=9), "thorough_args": fix(maxlen=10), "quick_shards": 16, "thorough_shards": 48},
         {"name": "pool", "pkg": "json", "harnesses": ["HC16Pool"], "quick_args": fix(maxlen=3), "thorough_args": fix(maxlen=5), "quick_shards": 8, "thorough_shards": 32},
         {"name": "history", "pkg": "json", "harnesses": ["HC16History"], "args": ["-max-instr", "60000000"], "quick_shards": 5, "thorough_shards": 5},
         {"name": "depthcap", "pkg": "json", "harnesses": ["HC08Depth"], "quick_shards": 8, "thorough_shards": 8},
-        {"name": "chain", "pkg": "json", "harnesses": ["HC16Chain"], "quick_args": fix(maxlen=3), "thorough_args": fix(maxlen=5), "quick_shards": 32, "thorough_shards": 64},
+        {"name": "chain", "pkg": "json", "harnesses": ["HC16Chain"], "quick_args": fix(maxlen=3), "thorough_args": fix(maxlen=3), "quick_shards": 32, "thorough_shards": 64},
     ],
     "must_reach": ["assert:chain-stack-depth-bounded-by-cap", "assert:chain-beyond-cap-not-parsed-completely", "assert:beyond-cap-is-refused", "assert:cap-survives-deep-history", "assert:bomb-beyond-cap-refused-after-history", "end", "assert:beyond-cap-returns-0", "assert:stack-depth-bounded-by-cap", "assert:accepted-implies-nesting-within-cap", "assert:cap-unchanged-after-parse"],
     "bounds": {"quick": {"guard": "input <= 4 bytes (all values), lvl and cap arbitrary 62-bit", "depth": "input <= 9 bytes over {[ ] { } \" : a space}, cap 1..3", "chain": "0..12 concrete openers (arrays / objects / alternating) + <= 3 symbolic bytes through the real Parse, cap 1..2"},
-               "thorough": {"guard": "<= 5 bytes", "depth": "<= 11 bytes", "chain": "+ <= 5 symbolic bytes"}},
+               "thorough": {"guard": "<= 5 bytes", "depth": "<= 10 bytes", "chain": "+ <= 3 symbolic bytes"}},
     "outside": ["stack bytes per frame (constant by construction)", "inputs longer than the bound for the depth measurement; the guard step itself is for arbitrary level/cap"],
     "assumptions": ["all JSON-family detectors reach the scanner only through json.Parse (functions_encoded lists the call chain)"],
 }
@@ -120,13 +120,13 @@ SPECS["C10"] = {
     "explanation": "Key-path stack balance of consumeArray/consumeObject as an inductive step from an arbitrary stack height (symbolic input over the "
                    "structural alphabet), plus end-to-end sub-type verdicts of Detect on objects assembled from symbolic choices of sibling shapes, positions and whitespace.",
     "units": [
-        {"name": "balance", "pkg": "json", "harnesses": ["HC10Balance"], "quick_args": fix(maxlen=8), "thorough_args": fix(maxlen=10), "quick_shards": 16, "thorough_shards": 48},
+        {"name": "balance", "pkg": "json", "harnesses": ["HC10Balance"], "quick_args": fix(maxlen=7), "thorough_args": fix(maxlen=9), "quick_shards": 16, "thorough_shards": 48},
         {"name": "verdict", "pkg": "mimetype", "harnesses": ["HC10Verdict"], "quick_args": fix(siblings=1), "quick_shards": 32, "thorough_shards": 64},
         {"name": "history", "pkg": "json", "harnesses": ["HC04History"], "quick_args": fix(maxlen=3), "thorough_args": fix(maxlen=4), "quick_shards": 32, "thorough_shards": 64},
         {"name": "reuse", "pkg": "mimetype", "harnesses": ["HC04Reuse"], "args": ["-max-instr", "20000000"], "quick_shards": 32, "thorough_shards": 64},
     ],
     "must_reach": ["assert:reused-buffer-same-answer-as-fresh-copy", "assert:history-same-query-verdict", "assert:subtype-verdict-whole", "assert:subtype-verdict-cut-after-deciding-member", "end", "assert:array-balanced", "assert:object-balanced"],
-    "bounds": {"quick": {"balance": "input <= 8 bytes over {[ ] { } \" : , 1 a space}, stack height 0..2"}, "thorough": {"balance": "<= 10 bytes"}},
+    "bounds": {"quick": {"balance": "input <= 7 bytes over {[ ] { } \" : , 1 a space}, stack height 0..2"}, "thorough": {"balance": "<= 9 bytes"}},
     "outside": ["inputs longer than the bound"],
     "assumptions": [],
 }
@@ -239,9 +239,9 @@ SPECS["C13"] = {
                    "positive verdict on arbitrary bytes over a stated alphabet implies the line structure the property demands (reference line splitter in the harness).",
     "units": [
         {"name": "table", "pkg": "magic", "harnesses": ["HC13Table"], "quick_shards": 32, "thorough_shards": 64, "quick_args": ["-max-instr", "20000000"], "thorough_args": ["-max-instr", "20000000"]},
-        {"name": "svconv", "pkg": "magic", "harnesses": ["HC13SvConverse"], "quick_args": fix(maxlen=7, alpha=0), "thorough_args": fix(maxlen=9, alpha=0), "quick_shards": 32, "thorough_shards": 64},
-        {"name": "svconv4", "pkg": "magic", "harnesses": ["HC13SvConverse"], "quick_args": fix(maxlen=9, alpha=1), "thorough_args": fix(maxlen=11, alpha=1), "quick_shards": 48, "thorough_shards": 64},
-        {"name": "ndconv", "pkg": "magic", "harnesses": ["HC13NdConverse"], "quick_args": fix(maxlen=6), "thorough_args": fix(maxlen=8), "quick_shards": 32, "thorough_shards": 64},
+        {"name": "svconv", "pkg": "magic", "harnesses": ["HC13SvConverse"], "quick_args": fix(maxlen=7, alpha=0), "thorough_args": fix(maxlen=8, alpha=0), "quick_shards": 32, "thorough_shards": 64},
+        {"name": "svconv4", "pkg": "magic", "harnesses": ["HC13SvConverse"], "quick_args": fix(maxlen=9, alpha=1), "thorough_args": fix(maxlen=9, alpha=1), "quick_shards": 48, "thorough_shards": 64},
+        {"name": "ndconv", "pkg": "magic", "harnesses": ["HC13NdConverse"], "quick_args": fix(maxlen=6), "thorough_args": fix(maxlen=7), "quick_shards": 32, "thorough_shards": 64},
         {"name": "ndstream", "pkg": "magic", "harnesses": ["HC13NdStream"], "quick_shards": 32, "thorough_shards": 64},
         {"name": "entry", "pkg": "mimetype", "harnesses": ["HC05Reader"], "quick_args": fix(maxlen=3), "thorough_args": fix(maxlen=4), "quick_shards": 16, "thorough_shards": 32},
         {"name": "ragged", "pkg": "magic", "harnesses": ["HC13Ragged"], "quick_shards": 32, "thorough_shards": 64},
@@ -250,7 +250,7 @@ SPECS["C13"] = {
     "must_reach": ["assert:second-detection-same-header-length", "assert:ragged-table-rejected-at-cut", "assert:ragged-table-rejected-file-ends-at-limit", "assert:detect-slices-to-limit", "end", "assert:table-survives-cut", "assert:every-line-has-the-same-field-count", "assert:complete-line-is-a-json-value", "assert:stream-survives-cut"],
     "bounds": {"quick": {"table": "2..3 rows x 2..3 columns, cells of 1..2 symbolic bytes or alternating empty / 1-byte cells, LF/CRLF per line, with/without final newline, every limit from end of line 2 to len+1",
                          "svconv": "<= 7 bytes over {, TAB LF CR # a 1 space}; <= 9 bytes over {delimiter LF a space}", "ndconv": "<= 6 bytes over {[ ] { } \" : , 1 a space LF CR}", "ndstream": "2..3 lines from 6 value templates with symbolic digits"},
-               "thorough": {"svconv": "<= 9 bytes; <= 11 bytes over the 4-letter alphabet", "ndconv": "<= 8 bytes"}},
+               "thorough": {"svconv": "<= 8 bytes; <= 9 bytes over the 4-letter alphabet", "ndconv": "<= 7 bytes"}},
     "outside": ["quoted fields (LazyQuotes semantics are not re-specified)", "cells longer than 2 bytes", "inputs outside the stated alphabets for the converse"],
     "assumptions": [],
 }
